@@ -131,8 +131,8 @@ def make_read_assignment(rng):
     ra.read_group, ra.mapped_strand, ra.strand, ra.chr_id = _rand_str(rng), rng.choice("+-."), rng.choice("+-."), _rand_str(rng)
     ra.mapping_quality = rng.randrange(256)
     ra.gene_assignment_type = rng.choice(list(ia.ReadAssignmentType))
-    ra.additional_info = {_rand_str(rng): rng.choice(["v", 3, -5, (1, -2), (0, 7)]) for _ in range(rng.randint(0, 3))}
-    ra.additional_attributes = {_rand_str(rng): rng.choice(["True", "x", 12, -1]) for _ in range(rng.randint(0, 2))}
+    ra.additional_info = {_rand_str(rng): rng.choice(["v", 3, -5, (1, -2), (0, 7), "", 0, (0, 0)]) for _ in range(rng.randint(0, 3))}
+    ra.additional_attributes = {_rand_str(rng): rng.choice(["True", "x", 12, -1, "", 0]) for _ in range(rng.randint(0, 2))}
     ra.introns_match = rng.random() < .5
     ra.exon_gene_profile = [rng.choice([-2, -1, 0, 1]) for _ in range(rng.randint(0, 6))]
     ra.intron_gene_profile = [rng.choice([-2, -1, 0, 1]) for _ in range(rng.randint(0, 6))]
